@@ -81,7 +81,7 @@ def pre_snapshot(names):
         installed = isinstance(wn._db.sqlite3, e3._Proxy)
         e3.uninstall()
         env.close_pool()
-        cur = wn.config._data_directory
+        cur = wn.config.data_directory
         env.fresh_db()
         R = universe.resources(annot=True)
         for n in names:
@@ -149,7 +149,7 @@ def partial_states(opname):
     out = []
     installed = isinstance(wn._db.sqlite3, e3._Proxy)
     e3.uninstall()
-    cur = wn.config._data_directory
+    cur = wn.config.data_directory
     env.close_pool()
     for lex in op['res']['lexicons']:
         d = env.fresh_db()
@@ -188,7 +188,7 @@ def probe_of(opname):
         op = _ops()[opname]
         installed = isinstance(wn._db.sqlite3, e3._Proxy)
         e3.uninstall()
-        cur = wn.config._data_directory
+        cur = wn.config.data_directory
         env.close_pool()
         d = env.fresh_db()
         env.restore(pre_snapshot(op['pre']))
@@ -209,7 +209,7 @@ def removed_reference(opname, victim):
         op = _ops()[opname]
         installed = isinstance(wn._db.sqlite3, e3._Proxy)
         e3.uninstall()
-        cur = wn.config._data_directory
+        cur = wn.config.data_directory
         env.close_pool()
         d = env.fresh_db()
         env.restore(pre_snapshot(op['pre']))
